@@ -560,3 +560,50 @@ def check_band_mask(ctx, rule="R5-band-mask-on-two-sided-grid"):
                      f"receive power; spectrum handed to fftnoise: {F!r}"[:400], where)
     rng_ok = isinstance(got[0][1].get("rng"), Obj)
     (ctx.holds if rng_ok else ctx.violated)(rule, key + "[rng]", "caller's generator forwarded" if rng_ok else "the caller's generator is not forwarded to fftnoise", where)
+
+
+def check_draw_order(ctx, rule="R7-request-drawn-last"):
+    """within one get_series(npts) call of a coloured generator constructed with settling enabled, the npts variates of the request are the LAST ones
+    drawn: whatever else consumes the generator in that call (a deferred settling pass) comes first.  Otherwise the position of the stream - and the
+    settled filter state - depends on the size of the first request, and get_series(a) + get_series(b) is no longer get_series(a + b)."""
+    repo = ctx.repo
+    from .dispatch import numeric_chooser
+    for cls in ("red_noise", "alpha_noise", "pink_noise"):
+        key = f"{NOISE}::{cls}.get_series"
+        if not repo.has(key): key = next((f"{NOISE}::{b}.get_series" for b in ("alpha_noise", "red_noise") if repo.has(f"{NOISE}::{b}.get_series")), key)
+        where = repo.where(key, repo.get(key)) if repo.has(key) else NOISE
+        ctx.analysed(key)
+        I = make_interp(repo)
+        I.hooks["decide"] = numeric_chooser({"fs": 1.0, "fmin": 0.01, "fmax": 0.4, "alpha": 1.0, "npts": 1000.0, "psd": 1.0})
+
+        def call(I_, f, args, kwargs, st, node):
+            if f.key.endswith("::_numba_lfilter_cascade"):
+                return (Filtered("cascade", (list(args), {}), "y"), Filtered("cascade", (list(args), {}), "zf"))
+            return NotImplemented
+        I.hooks["call"] = call
+        try:
+            o = instantiate(I, cls, seed=X.var("seed"), init_filter=True)
+        except Unknown as ex:
+            ctx.unknown(rule, f"{NOISE}::{cls}", str(ex), where); continue
+        rng = rng_of(o)
+        if not isinstance(o, Obj) or rng is None:
+            ctx.unknown(rule, f"{NOISE}::{cls}", "constructor not interpreted", where); continue
+        n0 = len(rng.attrs["draws"].items)
+        gs = I.find_method(o.cls, "get_series")
+        st = St(); st.mod = NOISE
+        try:
+            I.call_func(Func(gs, repo.get(gs)), [o, X.var("npts")], {}, st, None)
+        except Unknown as ex:
+            ctx.unknown(rule, f"{NOISE}::{cls}.get_series", str(ex), where); continue
+        new = rng.attrs["draws"].items[n0:]
+        c = f"{NOISE}::{cls}.get_series[first request after construction]"
+        if rng.attrs["draws"].per_iter or any(not isinstance(d, Draw) for d in new):
+            ctx.unknown(rule, c, "draw sequence not recognised", where); continue
+        req = [i for i, d in enumerate(new) if to_x(d.count) is not None and to_x(d.count).eq(X.var("npts"))]
+        if not req:
+            ctx.violated(rule, c, f"no draw of npts variates is made by get_series(npts): {new!r}"[:200], where)
+        elif req[-1] != len(new) - 1:
+            ctx.violated(rule, c, f"after the request's npts variates were drawn the same call draws again ({new[req[-1] + 1]!r}: a deferred settling pass): the stream position and the "
+                         "settled state depend on the size of the first request, so chunked and unchunked generation differ", where)
+        else:
+            ctx.holds(rule, c, f"{len(new)} draw(s) in the call, the request's own last" + (f"; {n0} settling draw(s) at construction" if n0 else ""), where)
